@@ -61,6 +61,28 @@ CHECKS['C07'] = dict(technique='reference-model differential monitor (independen
 CHECKS['C19'] = dict(technique='differential runtime monitor: the recorded C request/response stream replayed in the JVM against the pure-Java implementation',
              text='Seeded samples of the discrete argument space, energies/angles and strings (incl. NULL), formulas, all catalogue indices and crystal functions are executed by the C executor; the same stream is replayed by reflection in a JVM loaded with the data file generated from the same sources: exception iff C error, values within 5e-8 relative, objects field-digest equal; Java numeric constants published under a C macro name must carry the C value.',
              note='Trusted: JVM 17, stub Complex class; crystal data are rounded in the JVM exactly as the C build stores them (six decimals, single precision) so that the comparison stays tight.', ref='2 C19')
+# what rounds 6-8 of the seeded changes added to every check: the same calls in other BUILDS of the tree and in other HOSTS (DESIGN.md 7.1, 7.5)
+_PB = (' The same calls are replayed, bit for bit, on the library as the project\'s own build system makes it (meson: default options, release without '
+       'assertions, plain char unsigned, strict C11, static archive) inside a host program that defines the library\'s internal names itself, and in hosts '
+       'with other floating-point set-ups (exceptions trapping, sticky status flags raised, x87 precision control), without an error slot, in other call orders and as direct calls from optimised user code.')
+EXTRA = {
+ 'C01': _PB + ' The project build is repeated in a tree that holds stale generated files, with a hostile build environment (XRAYLIB_DIR, MALLOC_PERTURB_) and with CR LF data files; the tables must follow data/*.dat alone.',
+ 'C02': _PB + ' The project build is repeated in a tree that holds stale generated files, with a hostile build environment (XRAYLIB_DIR, MALLOC_PERTURB_) and with CR LF data files; the tables must follow data/*.dat alone.',
+ 'C03': ' The sweep is repeated under floating-point traps and on the four shared project builds inside the hostile host; exported symbols of the monitor\'s and the project\'s build are compared with the public declarations; allocation failpoints check that a noticed failure stores an error.',
+ 'C04': ' Allocation histories also run under valgrind on the project\'s release build (b_ndebug=true), with callers that reuse an error slot which is already set, caller-built crystals with negative atom counts, files through pipes, CR LF files and descriptor 0 free.',
+ 'C05': _PB, 'C06': _PB + ' "Its own tabulated density" of a NIST compound is read from the source table of the tree.', 'C09': _PB, 'C10': _PB + ' The Siegbahn aliases are checked against the nomenclature.',
+ 'C08': _PB,
+ 'C11': _PB + ' The project build is repeated in a dirty tree / hostile build environment / with CR LF data files.',
+ 'C12': _PB + ' The documented constants (CODATA 2010) are the reference; the functions are re-run in directed rounding modes of the host (1e-9).',
+ 'C07': ' 40000 of the strings are replayed through ctypes on the project\'s builds (default, release, unsigned char, C11); a fourth locale child has Latin-1 character classes; bracket-order mutants keep the bracket totals balanced.',
+ 'C13': ' Structs edited in place between identical calls are compared with fresh structs holding the same numbers; geometry and structure factors are re-run in directed rounding modes of the host (1e-9); struct layouts come from a compiled probe of the tree\'s headers.',
+ 'C14': ' Names with bytes >= 0x80, zero-padded / signed scan numbers, CR LF files, files through pipes, descriptor 0 free, arrays filled past 512 entries.',
+ 'C15': ' Entries are compared with their source (NIST table in the sources, data/Crystals.dat); by-name / by-index / by-name for every pair of entries; all catalogues re-read under a national locale (Latin-1 classes, collation other than byte order).',
+ 'C16': ' The monitor also runs on the project\'s build; a load monitor (dlopen) records process state - FP control bits, subnormal arithmetic, locale, descriptors, signals, environment - around the load; histories with sticky FP flags raised, in directed rounding modes, and blocks of 70000 repetitions (2e6 calls) for long-run state.',
+ 'C17': ' Also on the project\'s default build (no hook points), plain and with meson\'s -Db_sanitize=thread; every second thread of two runs in three works under its own numeric locale (uselocale).',
+ 'C18': ' The header is also compiled with clang++, with -O2 -DNDEBUG -funsigned-char and with -std=c++17; one wrapper call in five is made from a destructor while a host exception propagates; constructor-built crystals with values exact in no narrower type are compared with C structs.',
+ 'C19': ' Every string request and one numeric request in six are replayed in JVMs started with -ea and de_DE / tr_TR default locales, another default charset and time zone.',
+}
 NOT_APPLICABLE = [
  dict(property_id='C20', reason='Fortran/Pascal/Cython/IDL/SWIG interface files cannot be compiled, loaded or executed in this sandbox (no gfortran, fpc, Cython, swig, IDL), so there is no execution for a runtime monitor to observe; comparing their text is static analysis, a different technique. The executable slices (Java constants, C++ header, exported symbols) are monitored as by-products of C19/C18/C03.'),
 ]
@@ -84,7 +106,7 @@ def main():
         m['checks'].append(dict(property_id=pid, quick_cmd='bin/xv check %s --tier quick' % pid,
                                 thorough_cmd='bin/xv check %s --tier thorough' % pid,
                                 evidence_file='evidence/%s.json' % pid, replay_cmd_template='bin/xv replay {path}', engine='xv',
-                                level_claimed=dict(category='exploration', text=c['text'], design_ref=c['ref']),
+                                level_claimed=dict(category='exploration', text=c['text'] + EXTRA.get(pid, ''), design_ref=c['ref']),
                                 level_note=c['note'], technique=c['technique']))
     json.dump(m, open(os.path.join(V, 'MANIFEST.json'), 'w'), indent=1)
     try:
